@@ -1,0 +1,295 @@
+//go:build verif
+
+package main
+
+import (
+	"context"
+	"encoding/json"
+	"fmt"
+	"sort"
+	"strings"
+
+	sitter "github.com/smacker/go-tree-sitter"
+
+	"github.com/ludo-technologies/pyscn/internal/analyzer"
+	"github.com/ludo-technologies/pyscn/internal/parser"
+)
+
+// Class-metric hooks (properties C13 CBO, C14 LCOM4): Python source text in,
+// the per-class results of the production analysers out.
+
+type classReq struct {
+	Src             string   `json:"src"`
+	IncludeBuiltins bool     `json:"include_builtins"`
+	Low             *int     `json:"low"`
+	Medium          *int     `json:"medium"`
+	Exclude         []string `json:"exclude"`
+}
+
+func parseSrc(src string) (*parser.ParseResult, error) {
+	p := parser.New()
+	return p.Parse(context.Background(), []byte(src))
+}
+
+func dumpNode(b *strings.Builder, n *parser.Node, indent int, label string) {
+	pad := strings.Repeat("  ", indent)
+	if n == nil {
+		return
+	}
+	fmt.Fprintf(b, "%s%s%s", pad, label, n.Type)
+	if n.Name != "" {
+		fmt.Fprintf(b, " name=%q", n.Name)
+	}
+	if n.Op != "" {
+		fmt.Fprintf(b, " op=%q", n.Op)
+	}
+	if n.Module != "" {
+		fmt.Fprintf(b, " module=%q", n.Module)
+	}
+	if len(n.Names) > 0 {
+		fmt.Fprintf(b, " names=%q", n.Names)
+	}
+	if n.Value != nil {
+		if _, ok := n.Value.(*parser.Node); !ok {
+			fmt.Fprintf(b, " value=%q", fmt.Sprint(n.Value))
+		}
+	}
+	b.WriteString("\n")
+	list := func(name string, xs []*parser.Node) {
+		for i, c := range xs {
+			dumpNode(b, c, indent+1, fmt.Sprintf("%s[%d]: ", name, i))
+		}
+	}
+	list("Children", n.Children)
+	list("Bases", n.Bases)
+	list("Decorator", n.Decorator)
+	list("Targets", n.Targets)
+	list("Args", n.Args)
+	list("Keywords", n.Keywords)
+	if v, ok := n.Value.(*parser.Node); ok {
+		dumpNode(b, v, indent+1, "Value: ")
+	}
+	dumpNode(b, n.Left, indent+1, "Left: ")
+	dumpNode(b, n.Right, indent+1, "Right: ")
+	dumpNode(b, n.Test, indent+1, "Test: ")
+	dumpNode(b, n.Iter, indent+1, "Iter: ")
+	list("Body", n.Body)
+	list("Handlers", n.Handlers)
+	list("Orelse", n.Orelse)
+	list("Finalbody", n.Finalbody)
+}
+
+func dumpTS(b *strings.Builder, n *sitter.Node, src []byte, indent int, field string) {
+	if n == nil {
+		return
+	}
+	pad := strings.Repeat("  ", indent)
+	if field != "" {
+		field += ": "
+	}
+	txt := ""
+	if n.ChildCount() == 0 {
+		txt = " " + fmt.Sprintf("%q", n.Content(src))
+	}
+	named := ""
+	if !n.IsNamed() {
+		named = " (anon)"
+	}
+	fmt.Fprintf(b, "%s%s%s%s%s\n", pad, field, n.Type(), named, txt)
+	for i := 0; i < int(n.ChildCount()); i++ {
+		dumpTS(b, n.Child(i), src, indent+1, n.FieldNameForChild(i))
+	}
+}
+
+func init() {
+	// dump-ast: the parser.Node tree (type, name, populated child fields) of a source text.
+	register("dump-ast", func(raw json.RawMessage) (interface{}, error) {
+		var req classReq
+		if err := json.Unmarshal(raw, &req); err != nil {
+			return nil, err
+		}
+		res, err := parseSrc(req.Src)
+		if err != nil {
+			return nil, err
+		}
+		var b strings.Builder
+		dumpNode(&b, res.AST, 0, "")
+		return map[string]interface{}{"ast": b.String()}, nil
+	})
+
+	// dump-ts: the tree-sitter concrete tree with field names (diagnosis of ast_builder field lookups).
+	register("dump-ts", func(raw json.RawMessage) (interface{}, error) {
+		var req classReq
+		if err := json.Unmarshal(raw, &req); err != nil {
+			return nil, err
+		}
+		res, err := parseSrc(req.Src)
+		if err != nil {
+			return nil, err
+		}
+		var b strings.Builder
+		dumpTS(&b, res.RootNode, []byte(req.Src), 0, "")
+		return map[string]interface{}{"ts": b.String()}, nil
+	})
+
+	// cbo: parser + analyzer.CalculateCBOWithConfig exactly as service/cbo_service.go:analyzeFile calls it.
+	register("cbo", func(raw json.RawMessage) (interface{}, error) {
+		var req classReq
+		if err := json.Unmarshal(raw, &req); err != nil {
+			return nil, err
+		}
+		res, err := parseSrc(req.Src)
+		if err != nil {
+			return nil, err
+		}
+		def := analyzer.DefaultCBOOptions()
+		opts := &analyzer.CBOOptions{
+			IncludeBuiltins:   req.IncludeBuiltins,
+			IncludeImports:    true,
+			PublicClassesOnly: false,
+			ExcludePatterns:   req.Exclude,
+			LowThreshold:      def.LowThreshold,
+			MediumThreshold:   def.MediumThreshold,
+		}
+		if req.Low != nil {
+			opts.LowThreshold = *req.Low
+		}
+		if req.Medium != nil {
+			opts.MediumThreshold = *req.Medium
+		}
+		rs, err := analyzer.CalculateCBOWithConfig(res.AST, "case.py", opts)
+		if err != nil {
+			return nil, err
+		}
+		type cls struct {
+			Name  string   `json:"name"`
+			Line  int      `json:"line"`
+			CBO   int      `json:"cbo"`
+			Deps  []string `json:"deps"`
+			Risk  string   `json:"risk"`
+			Bases []string `json:"bases"`
+		}
+		out := []cls{}
+		for _, r := range rs {
+			deps := append([]string{}, r.DependentClasses...)
+			sort.Strings(deps)
+			out = append(out, cls{r.ClassName, r.StartLine, r.CouplingCount, deps, r.RiskLevel, r.BaseClasses})
+		}
+		sort.Slice(out, func(i, j int) bool {
+			if out[i].Name != out[j].Name {
+				return out[i].Name < out[j].Name
+			}
+			return out[i].Line < out[j].Line
+		})
+		return map[string]interface{}{"classes": out, "low": opts.LowThreshold, "medium": opts.MediumThreshold}, nil
+	})
+
+	// lcom: parser + analyzer.CalculateLCOMWithConfig exactly as service/lcom_service.go calls it.
+	register("lcom", func(raw json.RawMessage) (interface{}, error) {
+		var req classReq
+		if err := json.Unmarshal(raw, &req); err != nil {
+			return nil, err
+		}
+		res, err := parseSrc(req.Src)
+		if err != nil {
+			return nil, err
+		}
+		def := analyzer.DefaultLCOMOptions()
+		opts := &analyzer.LCOMOptions{LowThreshold: def.LowThreshold, MediumThreshold: def.MediumThreshold, ExcludePatterns: req.Exclude}
+		if req.Low != nil {
+			opts.LowThreshold = *req.Low
+		}
+		if req.Medium != nil {
+			opts.MediumThreshold = *req.Medium
+		}
+		rs, err := analyzer.CalculateLCOMWithConfig(res.AST, "case.py", opts)
+		if err != nil {
+			return nil, err
+		}
+		type cls struct {
+			Name     string     `json:"name"`
+			Line     int        `json:"line"`
+			LCOM4    int        `json:"lcom4"`
+			Groups   [][]string `json:"groups"`
+			Total    int        `json:"total"`
+			Excluded int        `json:"excluded"`
+			Vars     int        `json:"vars"`
+			Risk     string     `json:"risk"`
+		}
+		out := []cls{}
+		for _, r := range rs {
+			groups := [][]string{}
+			for _, g := range r.MethodGroups {
+				gg := append([]string{}, g...)
+				sort.Strings(gg)
+				groups = append(groups, gg)
+			}
+			sort.Slice(groups, func(i, j int) bool { return strings.Join(groups[i], ",") < strings.Join(groups[j], ",") })
+			out = append(out, cls{r.ClassName, r.StartLine, r.LCOM4, groups, r.TotalMethods, r.ExcludedMethods, r.InstanceVariables, r.RiskLevel})
+		}
+		sort.Slice(out, func(i, j int) bool {
+			if out[i].Name != out[j].Name {
+				return out[i].Name < out[j].Name
+			}
+			return out[i].Line < out[j].Line
+		})
+		return map[string]interface{}{"classes": out, "low": opts.LowThreshold, "medium": opts.MediumThreshold}, nil
+	})
+}
+
+// find-path: field paths (names of parser.Node child fields) from every ClassDef node down to
+// each node whose Name equals the marker (Name, Attribute, Call ...), used to tie the
+// position -> path table of the Coq model (Class/Syntax.v) to ast_builder.go.
+func findPaths(n *parser.Node, marker string, path []string, inClass bool, out *[][]string) {
+	if n == nil {
+		return
+	}
+	if inClass && n.Name == marker && (n.Type == parser.NodeName || n.Type == parser.NodeAttribute) {
+		*out = append(*out, append([]string{string(n.Type)}, path...))
+	}
+	if n.Type == parser.NodeClassDef && !inClass {
+		inClass = true
+		path = nil
+	}
+	sub := func(f string, xs []*parser.Node) {
+		for _, c := range xs {
+			findPaths(c, marker, append(append([]string{}, path...), f), inClass, out)
+		}
+	}
+	sub("Children", n.Children)
+	sub("Bases", n.Bases)
+	sub("Decorator", n.Decorator)
+	sub("Targets", n.Targets)
+	sub("Args", n.Args)
+	sub("Keywords", n.Keywords)
+	if v, ok := n.Value.(*parser.Node); ok {
+		sub("Value", []*parser.Node{v})
+	}
+	sub("Left", []*parser.Node{n.Left})
+	sub("Right", []*parser.Node{n.Right})
+	sub("Test", []*parser.Node{n.Test})
+	sub("Iter", []*parser.Node{n.Iter})
+	sub("Body", n.Body)
+	sub("Handlers", n.Handlers)
+	sub("Orelse", n.Orelse)
+	sub("Finalbody", n.Finalbody)
+}
+
+func init() {
+	register("find-path", func(raw json.RawMessage) (interface{}, error) {
+		var req struct {
+			Src    string `json:"src"`
+			Marker string `json:"marker"`
+		}
+		if err := json.Unmarshal(raw, &req); err != nil {
+			return nil, err
+		}
+		res, err := parseSrc(req.Src)
+		if err != nil {
+			return nil, err
+		}
+		out := [][]string{}
+		findPaths(res.AST, req.Marker, nil, false, &out)
+		return map[string]interface{}{"paths": out}, nil
+	})
+}
